@@ -51,6 +51,9 @@ class Check(PropertyCheck):
             "stream contains a FLAG; distinct by (stream, chunking)")
     assumptions = ["transport open", "chunkings whose unterminated residue stays within MAX_BUFFER_SIZE (the property's quantifier)"]
 
+    def case_from_json(self, j):
+        return [bytes.fromhex(c) for c in j["chunks"]]
+
     def tokens(self, rng):
         seq = 0
         toks = []
